@@ -22,7 +22,8 @@ P("C10",
              "send outcome, retrieved message, per-tick delivery log, per-port snapshot and cursor. holds_on is an independent "
              "trace predicate (right port, no duplicate, per-source / per-destination prefix order, counts = final buffer sizes, and - for "
              "engine runs, which go on until the event queue is exhausted - no outgoing head left whose destination has room); "
-             "no link theorem between check_case and holds_on is proved for this property.",
+             "c10_model_agreement_implies_property (C10/Link.v) proves check_case -> holds_on for runs whose accepted sends carry distinct "
+             "IDs (wf_case), the quiescence clause under final_clean (the model's final state has no deliverable head = C09's conclusion).",
   assumptions=["ports plugged into one connection have distinct names (the model keeps Go's 'last PlugIn wins' map semantics, the "
                "harness never plugs duplicates)",
                "message identities are unique per run (used by holds_on to read 'exactly once' off the logs)",
